@@ -73,7 +73,7 @@ def slack_of(cfg):
 
 def horizon(cfg, D):
     if cfg.get("infinite"):
-        p = max(n["timings"]["CYCLIC_OFFER_DELAY"] for n in cfg["nodes"].values())
+        p = max([n["timings"]["CYCLIC_OFFER_DELAY"] for n in cfg["nodes"].values()] + [1.0])
         w0 = D + 2 * p + slack_of(cfg)
         return w0, w0 + p + 0.5
     ta, tb = cfg["nodes"]["A"]["timings"], cfg["nodes"]["B"]["timings"]
@@ -113,10 +113,15 @@ def gen_infinite(seed, idx):
     nodes = {"A": {"role": "offerer", "timings": draw_node_timings(r)}, "B": {"role": "watcher", "timings": draw_node_timings(r)}}
     for n in nodes.values():
         n["timings"].update({"ANNOUNCE_TTL": 0xFFFFFF, "SUBSCRIBE_TTL": 0xFFFFFF, "SUBSCRIBE_REFRESH_INTERVAL": None, "CYCLIC_OFFER_DELAY": r.choice([0.5, 1.0, 2.0])})
+    noncyclic = r.random() < 0.25
+    if noncyclic:
+        # the offerer announces during its repetition phase only; afterwards it is found through FindService alone
+        nodes["A"]["timings"]["CYCLIC_OFFER_DELAY"] = 0
+        nodes["A"]["timings"]["REPETITIONS_MAX"] = r.randint(0, 2)
     lat = r.choice([0.0001, 0.001, 0.005, 0.02])
     net = {"latency": lat, "jitter": r.choice([0.0, lat / 2]), "windows": [], "partitions": []}
     cfg = {"nodes": nodes, "net": net, "mc_loop": r.random() < 0.4, "sock_flip": r.choice([0, 0.5, 1.0]), "infinite": True}
-    gap = 2 * max(n["timings"]["CYCLIC_OFFER_DELAY"] for n in nodes.values()) + 1.0
+    gap = 2 * max([n["timings"]["CYCLIC_OFFER_DELAY"] for n in nodes.values()] + [1.0]) + 1.0
     t = gap
     ops = []
     state = {"A": "run", "B": "run"}
@@ -131,13 +136,17 @@ def gen_infinite(seed, idx):
         if f == "crash":
             ops.append({"k": "node", "t": round(tt + r.choice([0.001, 0.05, 0.5, 2.0]), 6), "n": n, "f": "restart"})
             t = tt + 2.0
+        elif f == "stop" and r.random() < 0.3:
+            # stopped and started again at once (no loop iteration in between)
+            ops.append({"k": "node", "t": tt, "n": n, "f": "start"})
+            t = tt
         else:
             state[n] = "stopped" if f == "stop" else "run"
             t = tt
         t += gap
     plan = {"engine": "pair", "property": ID, "class": "infinite-steady", "seed": seed, "cfg": cfg, "ops": ops, "until": 0}
     D = last_disturbance(plan)
-    p = max(n["timings"]["CYCLIC_OFFER_DELAY"] for n in nodes.values())
+    p = max([n["timings"]["CYCLIC_OFFER_DELAY"] for n in nodes.values()] + [1.0])
     plan["w0"] = round(D + 2 * p + slack_of(cfg), 6)
     plan["until"] = round(plan["w0"] + p + 0.5, 6)
     return plan
@@ -146,17 +155,21 @@ def gen_infinite(seed, idx):
 def directed(i):
     """the recorded known finding, exercised on every run: infinite TTLs, the watcher restarts, its unicast Subscribe
     overtakes its own multicast FindService (jitter): the second reboot detection wipes the new subscription
-    (the plan the soundness sweep found with seed 6, index 2494, stored verbatim)"""
+    (the plan the soundness sweep found with seed 6, index 2494, stored verbatim).
+    Plan 1 is the mirror image: a non-cyclic offerer restarts; the watcher detects the reboot on the multicast channel
+    (the new offers) and again on the unicast channel (the acknowledgement of its new Subscribe) and forgets the
+    service for good, since no cyclic offer follows."""
     import json
     import os
 
-    with open(os.path.join(os.path.dirname(__file__), "c04_directed0.json")) as f:
+    with open(os.path.join(os.path.dirname(__file__), f"c04_directed{i}.json")) as f:
         plan = json.load(f)
     plan["class"] = "directed-infinite"
     return plan
 
 
-NDIRECTED = 1
+NDIRECTED = 2
+NONCYCLIC_SITE = "infinite-ttl:non-cyclic-offerer-restarted:reboot-detection-per-channel"
 
 
 def gen_lost_stopoffer(seed, idx):
@@ -304,12 +317,34 @@ def check(plan, res):
         # outside the clause's domain (a crash without restart; only a minimiser produces this)
         w0 = float("inf")
     detections = 0
+    noncyclic_restart = False
+    if infinite and A.alive and B.alive and not cfg["nodes"]["A"]["timings"].get("CYCLIC_OFFER_DELAY", 1):
+        # non-cyclic offerer restarted under the eyes of the watcher's current incarnation (known finding, see NONCYCLIC_SITE)
+        a_boot = max([e[2] for e in res.log if e[4] == "boot" and e[3] == A.actor] + [0.0])
+        b_boot0 = max([e[2] for e in res.log if e[4] == "boot" and e[3] == B.actor] + [0.0])
+        noncyclic_restart = A.inc >= 2 and a_boot > b_boot0
     if infinite and A.alive:
         # how often did the offerer's current incarnation detect a reboot of the watcher since the watcher's last boot?
         b_boot = max([e[2] for e in res.log if e[4] == "boot" and e[3] == B.actor] + [0.0])
         oa = sub_oracles.get(A.actor)
         if oa is not None:
             detections = sum(1 for (src, ridx, ep) in oa.reboots if src == pair.ADDR["B"] and res.log[ridx][2] >= b_boot)
+    def evaluate(T):
+        if b_run and (latest_off == "offered") != a_off and "o" not in reported:
+            reported.add("o")
+            ctx = "stale-offer" if not a_off else "offer-not-seen"
+            if ctx == "offer-not-seen" and noncyclic_restart:
+                ctx = NONCYCLIC_SITE
+            viol.append(("CONVERGED-OFFER", {"msg": f"idle at {T:.6f} (D={D:.6f}, window from {w0:.6f}): offerer offering={a_off}, watcher's latest notification={latest_off}", "context": ctx}))
+        if A.alive and (latest_sub == "subscribed") != (a_off and b_run) and "s" not in reported:
+            reported.add("s")
+            ctx = "stale-subscription" if not (a_off and b_run) else "subscription-missing"
+            if infinite and ctx == "subscription-missing" and detections >= 2:
+                ctx = "infinite-ttl:second-reboot-detection-on-other-channel"
+            elif ctx == "subscription-missing" and noncyclic_restart:
+                ctx = NONCYCLIC_SITE
+            viol.append(("CONVERGED-SUBSCRIPTION", {"msg": f"idle at {T:.6f} (D={D:.6f}, window from {w0:.6f}): offering={a_off}, watcher running={b_run}, offerer's latest notification={latest_sub}", "context": ctx}))
+
     for seq, it, T, actor, kind, data in res.log:
         if kind == "cb":
             if actor == B.actor and data[0] in ("offered", "stopped") and data[1] == "L0" and data[2] == SERVICE and data[3] == pair.ADDR["A"]:
@@ -318,16 +353,11 @@ def check(plan, res):
                 latest_sub = data[0]
         elif kind == "idle" and T >= w0:
             nconv += 1
-            if b_run and (latest_off == "offered") != a_off and "o" not in reported:
-                reported.add("o")
-                ctx = "stale-offer" if not a_off else "offer-not-seen"
-                viol.append(("CONVERGED-OFFER", {"msg": f"idle at {T:.6f} (D={D:.6f}, window from {w0:.6f}): offerer offering={a_off}, watcher's latest notification={latest_off}", "context": ctx}))
-            if A.alive and (latest_sub == "subscribed") != (a_off and b_run) and "s" not in reported:
-                reported.add("s")
-                ctx = "stale-subscription" if not (a_off and b_run) else "subscription-missing"
-                if infinite and ctx == "subscription-missing" and detections >= 2:
-                    ctx = "infinite-ttl:second-reboot-detection-on-other-channel"
-                viol.append(("CONVERGED-SUBSCRIPTION", {"msg": f"idle at {T:.6f} (D={D:.6f}, window from {w0:.6f}): offering={a_off}, watcher running={b_run}, offerer's latest notification={latest_sub}", "context": ctx}))
+            evaluate(T)
+    if res.sim_time >= w0 and plan["until"] >= w0:
+        # the end of the run is an idle point, too (a system with nothing left to do records no further event)
+        nconv += 1
+        evaluate(res.sim_time)
     probes["converged_checks"] = nconv
     probes["stalls"] = res.stats.get("stall", 0)
     if plan.get("aligned"):
